@@ -65,6 +65,7 @@ type Exec struct {
 	protected  map[int]int // object id -> sync cell of the mutex that must be held to touch it
 	LedDevice, LedCapture, LedCancel Value
 	lastClock                        *smt.Term
+	ctxErr                           Value
 	ufMemo     map[string][]Value
 	DecodeFailKind *smt.Term
 	DecodedList    []decodedReg // values registered by verifrt.TOMLToken
@@ -968,6 +969,12 @@ func (ex *Exec) step(st *State, fr *Frame, instr ssa.Instruction) {
 	case *ssa.MakeSlice:
 		l := ex.val(fr, in.Len).(*smt.Term)
 		c := ex.val(fr, in.Cap).(*smt.Term)
+		if l.IsConst() && !c.IsConst() {
+			// a symbolic capacity only matters for aliasing through spare capacity, which a freshly made slice
+			// does not have: the slice is given exactly its length and grows by re-allocation
+			ex.Notes = append(ex.Notes, "make([]T, n, cap) with symbolic cap: capacity abstracted to n")
+			c = l
+		}
 		if !l.IsConst() || !c.IsConst() {
 			panic(unsupported("make([]T) with symbolic size"))
 		}
